@@ -164,6 +164,282 @@ solver = Contract(
     options={"samples": _samples_solver},
 )
 
+# ------------------------------------------------------------------ direction increments (midpoint rule on the circle)
+import pyvc.terms as T
+
+
+def wrap_pi(x):
+    """(x + pi) % (2 pi) - pi: the wrapped difference into [-pi, pi)"""
+    if is_symbolic(x):
+        return T.sub(T.mod(T.add(x, T.PI), T.mul(2, T.PI)), T.PI)
+    import math
+    return (x + math.pi) % (2 * math.pi) - math.pi
+
+
+def increment_spec(d, n, j):
+    """half the sum of the wrapped forward and backward differences at grid point j"""
+    if is_symbolic(j, n) or hasattr(d, "_a"):
+        nxt = If(j + 1 < n, d[If(j + 1 < n, j + 1, 0)], d[0])
+        prv = If(j >= 1, d[If(j >= 1, j - 1, 0)], d[n - 1])
+        return (wrap_pi(nxt - d[j]) + wrap_pi(d[j] - prv)) / 2
+    n = int(n)
+    return (wrap_pi(float(d[(j + 1) % n]) - float(d[j])) + wrap_pi(float(d[j]) - float(d[(j - 1) % n]))) / 2
+
+
+def _wit_increment():
+    import numpy as np
+    out = [("", {"directions_radians": np.linspace(0, 2 * np.pi, 24, endpoint=False)}),
+           ("", {"directions_radians": np.array([0.1, 0.5, 2.0, 3.0, 4.5, 6.0])}),
+           ("", {"directions_radians": np.array([1.0])}),
+           ("", {"directions_radians": (np.linspace(0, 2 * np.pi, 7, endpoint=False) + 5.0) % (2 * np.pi)})]
+    return [(lambda w=w: w) for w in out]
+
+
+direction_increment = Contract(
+    E + "utils.py::get_direction_increment",
+    params=lambda mk: {"directions_radians": mk.array("d", (mk.size("N"),))},
+    requires=[("grid", lambda a: _n(a.directions_radians) >= 1)],
+    ensures=[("mean_of_wrapped_forward_and_backward_difference",
+              lambda a, r: And(_n(r) == _n(a.directions_radians),
+                               forall(0, _n(a.directions_radians), lambda j: eq(r[j], increment_spec(a.directions_radians, _n(a.directions_radians), j)))))],
+    witness=_wit_increment(),
+    options={"result": lambda mk, a: mk.array("dtheta", mk.st.deref(a.directions_radians).shape)},
+)
+
+# ------------------------------------------------------------------ estimate.py: dispatch, reshape, degrees Jacobian
+# The point estimators are modelled as uninterpreted functions of the direction index and of ONE row's own four moments (for
+# the direction grid of the call): a row of the result can then only be shown to be "the estimator applied to that row's
+# moments" if the code hands every row its own inputs (batch independence), as in C08's batch loops.
+import z3 as _z3
+import pyvc.models.npshape   # noqa  (assumed contracts: ndarray.reshape, numpy.prod)
+from pyvc.values import Arr as _Arr
+
+_R5 = [T.IntS] + [T.RealS] * 4
+EST_UF = {v: _z3.Function("estimator_" + v, *_R5, T.RealS) for v in ("mem", "scipy", "newton", "approximate")}
+
+
+def est_term(variant, j, m):
+    """density (per radian) at direction index j of the estimate for the moment quadruple m = (a1, b1, a2, b2)"""
+    return EST_UF[variant](T.to_z3(j), *[T.to_real(T.to_z3(x)) for x in m])
+
+
+def step_rad(N):
+    """the uniform bin width in radians, written as (bin width in degrees) * pi / 180  (= 2 pi / N, lemma below)"""
+    if is_symbolic(N):
+        return T.mul(T.div(360, N), T.div(T.PI, 180))
+    import math
+    return 360.0 / N * math.pi / 180
+
+
+def uniform_degrees(direction, N):
+    """ascending uniform grid: direction[j] = direction[0] + j * 360 / N"""
+    if hasattr(direction, "_a") or is_symbolic(N):
+        return forall(0, N, lambda j: eq(direction[j], direction[0] + j * T.div(360, N)), "ju")
+    import numpy as np
+    d = np.asarray(direction, dtype="float64")
+    return bool(np.allclose(d, d[0] + np.arange(len(d)) * 360.0 / len(d), rtol=0, atol=1e-9))
+
+
+def _variant_of(method, solution_method):
+    m = method.lower() if isinstance(method, str) else None
+    if m in ("maximum_entropy_method", "mem"):
+        return "mem"
+    if m in ("maximum_entrophy_method2", "mem2"):
+        return solution_method if solution_method in ("scipy", "newton", "approximate") else None
+    return None
+
+
+class EstimatorModel:
+    """result builder of the callee contracts of `mem` / `mem2` (signature: directions_radians, a1, b1, a2, b2, progress, ...).
+
+    Call-site obligations: the grid handed over is the caller's direction grid times pi/180, the four moment arrays have one
+    (points, frequencies) shape.  Result: array (points, frequencies, N) whose cell [p, i, j] is the estimator function at j of
+    the moments the CALLEE received in cell [p, i].  Assumed (the estimator's own contract, on a uniform grid with N >= 3 and for
+    a1^2 + b1^2 < 1): every row is non-negative and sums to one with the uniform bin width in radians."""
+
+    def __init__(self, which):
+        self.which = which
+
+    def variant(self, mk, a):
+        if self.which == "mem":
+            return "mem"
+        sm = mk.st.deref(a.solution_method)
+        if sm not in ("scipy", "newton", "approximate"):
+            from pyvc.interp import PyRaise
+            from pyvc.values import ExcVal
+            raise PyRaise(ExcVal("ValueError", ("Unknown method",)))
+        return sm
+
+    def __call__(self, mk, a):
+        st, ctx = mk.st, mk.ctx
+        v = self.variant(mk, a)
+        direction = st.deref(ctx.args["direction"])
+        N = direction.shape[0]
+        g = st.deref(a.directions_radians)
+        ok = isinstance(g, _Arr) and g.ndim == 1
+        ctx.oblige(st, f"pre.{self.which}.grid_is_the_callers_direction_grid_in_radians",
+                   And(eq(g.shape[0], N), forall(0, N, lambda j: eq(g.get((j,)), direction.get((j,)) * T.div(T.PI, 180)), "jg")) if ok else False)
+        ms = [st.deref(x) for x in (a.a1, a.b1, a.a2, a.b2)]
+        ok = all(isinstance(x, _Arr) and x.ndim == 2 for x in ms)
+        ctx.oblige(st, f"pre.{self.which}.moments_are_points_by_frequencies_arrays_of_one_shape",
+                   And(*[And(eq(x.shape[0], ms[0].shape[0]), eq(x.shape[1], ms[0].shape[1])) for x in ms[1:]]) if ok else False)
+        if not ok:
+            raise Unsupported("estimator called with something that is not a 2-d array")
+        npnt, nf = ms[0].shape
+        res = _Arr((npnt, nf, N), lambda ix, ms=ms, v=v: est_term(v, ix[2], [x.get((ix[0], ix[1])) for x in ms]), (), "real")
+        D = lambda p, i, j: res.get((p, i, j))
+        inside = lambda p, i: ms[0].get((p, i)) * ms[0].get((p, i)) + ms[1].get((p, i)) * ms[1].get((p, i)) < 1
+        st.assume(T.to_z3(forall(0, npnt, lambda p: forall(0, nf, lambda i: implies(inside(p, i), And(
+            forall(0, N, lambda j: D(p, i, j) >= 0, "jn"),
+            eq(Sum(0, N, lambda j: D(p, i, j) * step_rad(N)), 1))), "ie"), "pe")))
+        return st.alloc(res, "estimate")
+
+
+MEM_BATCH = CalleeContract(E + "mem.py::mem", EstimatorModel("mem"), assumed=True,
+                           note="MEM (Lygre & Krogstad): each (point, frequency) row is a function of that row's own moments, >= 0 with unit integral "
+                                "(2 pi / N bins) for a1^2+b1^2 < 1 - bounded on the real code (complex arithmetic)")
+MEM2_BATCH = CalleeContract(E + "mem2.py::mem2", EstimatorModel("mem2"), assumed=True,
+                            note="MEM2: each row is a function of that row's own moments (the batch loops and the dispatch on solution_method are verified below; "
+                                 "the distribution constructor and every exit of the Newton solver are verified >= 0 with unit integral; scipy's root finder is a library)")
+
+
+def _p_estimate(method, kwargs, rank):
+    def p(mk):
+        N, nf = mk.size("N"), mk.size("nf")
+        if rank == 1:
+            shape = (nf,)
+        elif rank == 2:
+            shape = (mk.size("np"), nf)
+        else:
+            shape = (mk.size("np"), 3, nf)
+        d = {k: mk.array(k, shape) for k in ("a1", "b1", "a2", "b2")}
+        d["direction"] = mk.array("direction", (N,))
+        d["method"] = method
+        d.update(kwargs)
+        return d
+    return p
+
+
+def _lead(a):
+    """index tuples of the leading (batch) dimensions -> (ranges, cell getter)"""
+    return a.a1.shape[:-1]
+
+
+def _forall_rows(a, fn):
+    """fn(lead index tuple, frequency index) for every row of the batch"""
+    shape = a.a1.shape if hasattr(a.a1, "shape") else None
+    lead, nf = tuple(shape[:-1]), shape[-1]
+
+    def rec(k, ix):
+        if k == len(lead):
+            return forall(0, nf, lambda i: fn(ix, i), "i")
+        return forall(0, lead[k], lambda p: rec(k + 1, ix + (p,)), "p%d" % k)
+    return rec(0, ())
+
+
+def _row_m(a, ix, i):
+    return [x[ix + (i,)] for x in (a.a1, a.b1, a.a2, a.b2)]
+
+
+def _native_row(a, variant, ix, i):
+    """the estimator applied to this row alone (real code): per-radian density over the grid"""
+    import numpy as np
+    from ocean_science_utilities.wavespectra.estimators.mem import mem
+    from ocean_science_utilities.wavespectra.estimators.mem2 import mem2
+    cache = a.__dict__.setdefault("_rowcache", {})
+    key = (variant, ix, i)
+    if key not in cache:
+        m = [np.array([[float(x[ix + (i,)])]]) for x in (a.a1, a.b1, a.a2, a.b2)]
+        g = np.asarray(a.direction, dtype="float64") * np.pi / 180
+
+        class _P:
+            def update(self, n):
+                pass
+        cache[key] = (mem(g, *m, _P()) if variant == "mem" else mem2(g, *m, _P() if variant == "scipy" else None, solution_method=variant))[0, 0, :]
+    return cache[key]
+
+
+def _est_variant(a):
+    return _variant_of(a.method, a.__dict__.get("solution_method", "newton"))
+
+
+def _post_rows(a, r):
+    v = _est_variant(a)
+    N = _n(a.direction)
+    if hasattr(a.a1, "_a"):
+        return _forall_rows(a, lambda ix, i: forall(0, N, lambda j: eq(r[ix + (i, j)], est_term(v, j, _row_m(a, ix, i)) * T.div(T.PI, 180)), "j"))
+    import numpy as np
+    return _forall_rows(a, lambda ix, i: bool(np.allclose(np.asarray(r)[ix + (i,)], _native_row(a, v, ix, i) * np.pi / 180, rtol=1e-9, atol=1e-12)))
+
+
+def _inside(a, ix, i):
+    m = _row_m(a, ix, i)
+    return m[0] * m[0] + m[1] * m[1] < 1
+
+
+def _post_nonneg(a, r):
+    N = _n(a.direction)
+    return _forall_rows(a, lambda ix, i: implies(_inside(a, ix, i), forall(0, N, lambda j: r[ix + (i, j)] >= 0, "j")))
+
+
+def _post_unit(a, r):
+    N = _n(a.direction)
+    step = T.div(360, N) if is_symbolic(N) else 360.0 / N
+    return _forall_rows(a, lambda ix, i: implies(_inside(a, ix, i), eq(Sum(0, N, lambda j: r[ix + (i, j)] * step), 1, rtol=1e-6, atol=1e-6)))
+
+
+def _post_shape(a, r):
+    want = tuple(a.a1.shape) + (_n(a.direction),)
+    got = tuple(r.shape)
+    return len(got) == len(want) and And(*[eq(x, y) for x, y in zip(got, want)])
+
+
+EST_INST = [("mem", "mem", {}, 2), ("maximum_entropy_method", "maximum_entropy_method", {}, 2),
+            ("mem2/default", "mem2", {}, 2), ("mem2/scipy", "mem2", {"solution_method": "scipy"}, 2),
+            ("mem2/newton", "mem2", {"solution_method": "newton"}, 2), ("mem2/approximate", "mem2", {"solution_method": "approximate"}, 2),
+            ("MEM2/scipy", "MEM2", {"solution_method": "scipy"}, 2), ("maximum_entrophy_method2/newton", "maximum_entrophy_method2", {"solution_method": "newton"}, 2),
+            ("mem2/scipy,one_spectrum", "mem2", {"solution_method": "scipy"}, 1), ("mem,one_spectrum", "mem", {}, 1),
+            ("mem2/newton,two_leading_dims", "mem2", {"solution_method": "newton"}, 3), ("mem,two_leading_dims", "mem", {}, 3)]
+EST_BAD = [("unknown_method", "mem3", {}, 2), ("mem2/unknown_solution_method", "mem2", {"solution_method": "secant"}, 2)]
+_GOOD = {lab for lab, *_ in EST_INST}
+# with two leading dimensions (merged by reshape: div / mod index arithmetic) the shape and the row clause are proved; non-negativity and the unit integral
+# of a row follow from the row clause and the estimator's contract exactly as in the other instances and are not re-derived through the index arithmetic
+_GOOD12 = {lab for lab, _, _, rank in EST_INST if rank != 3}
+
+EST_REQ = [("uniform_grid_of_at_least_three_directions", lambda a: And(_n(a.direction) >= 3, uniform_degrees(a.direction, _n(a.direction)))),
+           ("dims", lambda a: And(*[d >= 0 for d in a.a1.shape]))]
+
+
+def _wit_estimate():
+    import numpy as np
+    rng = np.random.default_rng(11)
+    out = []
+    for lab, method, kw, rank in EST_INST:
+        N = int(rng.choice([8, 24, 36]))
+        shape = {1: (4,), 2: (2, 3), 3: (2, 3, 2)}[rank]
+        quads = np.array([von_mises_moments(rng) if k % 2 == 0 else unrealisable_moments(rng) for k in range(int(np.prod(shape)))])
+        d = {n_: quads[:, k].reshape(shape).copy() for k, n_ in enumerate(("a1", "b1", "a2", "b2"))}
+        d["direction"] = np.linspace(0, 360, N, endpoint=False) + (0.0 if rank != 2 else float(rng.uniform(0, 20)))
+        d["method"] = method
+        d.update(kw)
+        out.append((lab, d))
+    return [(lambda w=w: w) for w in out]
+
+
+estimate = Contract(
+    E + "estimate.py::estimate_directional_distribution",
+    instances=[(lab, _p_estimate(m, kw, rank)) for lab, m, kw, rank in EST_INST + EST_BAD],
+    requires=EST_REQ,
+    ensures=[("leading_shape_of_the_input_plus_directions", _post_shape, _GOOD),
+             ("each_row_is_the_estimator_of_its_own_moments_per_degree", _post_rows, _GOOD),
+             ("non_negative", _post_nonneg, _GOOD12),
+             ("unit_integral_in_degrees", _post_unit, _GOOD12)],
+    raises={"ValueError": lambda a: _variant_of(a.method, a.__dict__.get("solution_method", "newton")) is None,
+            "Exception": lambda a: _variant_of(a.method, "newton") is None},
+    callees={MEM_BATCH.target: MEM_BATCH, MEM2_BATCH.target: MEM2_BATCH},
+    witness=_wit_estimate(),
+)
+
 # ------------------------------------------------------------------ bounded: the four variants on compiled code
 VARIANTS = [("mem", {}), ("mem2", {"solution_method": "scipy"}), ("mem2", {"solution_method": "newton"}),
             ("mem2", {"solution_method": "approximate"})]
@@ -227,7 +503,7 @@ def _bounded_variants(tier, seed):
 
 BOUNDED = [Bounded("estimators.compiled", _bounded_variants, "validity, returns-without-raising and batch independence of the four variants as they run")]
 
-CONTRACTS = [distribution, cholesky, solver]
+CONTRACTS = [distribution, cholesky, solver, direction_increment, estimate]
 TRUSTED = []
 EXPLANATION = ("mem2_directional_distribution proved non-negative with unit integral for any finite multipliers; every return path of the MEM2 Newton solver proved to return such a distribution; "
                "MEM, scipy, estimate.py normalisation, batch independence and no-raise on compiled code are a bounded check over seeded moment quadruples")
